@@ -13,6 +13,7 @@ CONSTANTS
   HydCounts = {1, 2, 7, 10}
   ChargeToks <- Q_All
   PrefixSet <- P_All
+  MaxPrefixes = 2
   SuffixSet <- S_All
   PrimeMarks = {"*", "'", "**"}
   MaxPrimes = 2
